@@ -187,8 +187,23 @@ def judge(ctx, cases):
     with open(trace, "wb") as out:
         for k, case in enumerate(cases):
             origin += run_case(ctx, case, out, k)
-    res = ctx.validate("TraceConcurrency", trace, cfg=TRACE_CFG, chunk=1200 if ctx.quick else 2500)
-    ctx.cov["events_judged"] = ctx.cov.get("events_judged", 0) + res["hits"].get("events", 0)
+    # long free-running runs are validated in small chunks of their own (they would otherwise all sit in the last chunk)
+    all_lines = open(trace, "rb").readlines()
+    small = [k for k, l in enumerate(all_lines) if len(l) <= 60000]
+    big = [k for k, l in enumerate(all_lines) if len(l) > 60000]
+    res = {"bad": [], "hits": {}}
+    for idx, chunk, tag in ((small, 1200 if ctx.quick else 2500, "s"), (big, 6, "b")):
+        if not idx:
+            continue
+        part = trace + "." + tag
+        with open(part, "wb") as f:
+            f.writelines(all_lines[k] for k in idx)
+        r = ctx.validate("TraceConcurrency", part, cfg=TRACE_CFG, chunk=chunk)
+        for bb in r["bad"]:
+            bb["i"] = idx[bb["i"] - 1] + 1
+            res["bad"].append(bb)
+        for k2, v in (r.get("hits") or {}).items():
+            res["hits"][k2] = res["hits"].get(k2, 0) + v
     recs = []
     lines = None
     for b in res["bad"]:
